@@ -203,9 +203,29 @@ def read_values(heap, lst):
     return vals, kinds, problems
 
 
-def r5_edits(rep, src):
+def generated_layouts():
+    """token layouts of list values built from a small grammar: optional leading blank, 1..3 values, every way of
+    separating two values (comma; comma+blank; comma, line break, continuation; the same with a comment line in
+    between; for blank-separated lists: blank; line break + continuation), optional trailing separator"""
+    import itertools
+    out = []
+    for space_sep, seps, trail in ((False, ['S', 'S W', 'S N K', 'S N C K', 'W S W'], ['', ' S', ' S N']), (True, ['P', 'N K', 'N C K'], ['', ' N'])):
+        for lead in ('', 'W ' if not space_sep else 'P N K '):
+            for n in (1, 2, 3):
+                for combo in itertools.product(seps, repeat=n - 1):
+                    for tr in trail:
+                        toks = lead + 'V'
+                        for sp in combo:
+                            toks += ' ' + sp + ' V'
+                        out.append((toks + tr, space_sep))
+    return out
+
+
+def r5_edits(rep, src, tier='quick'):
     layouts = [('V S W V S W V', False), ('V S V', False), ('W V S W V', False), ('W V P V P V', True), ('V P V', True), ('W V', False),
                ('W V S N C K V S N K V', False), ('V S N C K V', False), ('W V S W V S', False), ('P N K V P V', True), ('P N C K V N K V', True)]
+    if tier == 'thorough':
+        layouts = layouts + [l for l in generated_layouts() if l not in layouts]
     m_site = '%s:%s' % (PM, CLS)
     n = 0
     for lay, space_sep in layouts:
@@ -665,6 +685,6 @@ def check(src, rep, tier):
     rep.need('C11.R4', 5)
     rep.need('C11.R5', 60)
     rep.guard('C11.R1', r1_changed_flag, src)
-    rep.guard('C11.R5', r5_edits, src)
+    rep.guard('C11.R5', r5_edits, src, tier)
     rep.guard('C11.R3', r2_r3_tokenizers, src)
     rep.guard('C11.R4', r4_writeback, src)
